@@ -176,7 +176,7 @@ class Walker:
             if steps[0] > self.max_steps:
                 outcomes.add('BUDGET')
                 break
-            key = (blk, tuple(sorted((k, v) for k, v in env.items() if not isinstance(v, tuple))))
+            key = (blk, tuple(sorted(((str(k), v) for k, v in env.items() if not isinstance(v, tuple)))))
             if key in seen:
                 continue
             seen.add(key)
@@ -191,6 +191,15 @@ class Walker:
                     refs[lhs] = place_key(rv['p'])
                     env.pop(lhs, None)
                     continue
+                if rv['k'] == 'use' and op_const(rv['a']) is not None and op_const(rv['a']).get('ev_bytes') is not None:
+                    c = op_const(rv['a'])
+                    bs = c['ev_bytes']
+                    if len(bs) <= 8:
+                        key = ('constmem', c['s'])
+                        env[(key, ())] = int.from_bytes(bytes(bs), 'little')
+                        refs[lhs] = (key, ())
+                        env.pop(lhs, None)
+                        continue
                 from analyses import place_prefix_type
                 v = self.eval_rvalue(env, refs, None, rv)
                 if isinstance(v, tuple):
@@ -276,15 +285,28 @@ class Walker:
                         out2 = w2.walk(0, {(i + 1, ()): av[i] for i in range(len(av))})
                         if out2 == {'ret'} and len(rets) == 1 and None not in rets:
                             res = rets.pop()
+                elif callee in ('core::cmp::PartialEq::eq', 'core::cmp::PartialEq::ne') and len(t['args']) == 2:
+                    vs = []
+                    for a in t['args']:
+                        ap = op_place(a)
+                        v = None
+                        if ap is not None and place_key(ap) in refs:
+                            v = self.val_of_place(env, refs, refs[place_key(ap)])
+                        vs.append(v)
+                    if vs[0] is not None and vs[1] is not None:
+                        res = int(vs[0] == vs[1]) if callee.endswith('::eq') else int(vs[0] != vs[1])
                 elif callee in ('core::convert::From::from', 'core::convert::Into::into') and len(t['args']) == 1:
                     v = self.val_of_operand(env, refs, t['args'][0])
                     dt = fn.ty(t['dest_ty'])
                     if v is not None and dt['k'] in ('int', 'char'):
                         res = v
-                for k2 in [k2 for k2 in env if k2[0] == dest[0]]:
-                    env.pop(k2)
-                if res is not None:
-                    env[dest] = res
+                if dest in pin and dest in env:
+                    pass  # the value of this call result is what the table ranges over
+                else:
+                    for k2 in [k2 for k2 in env if k2[0] == dest[0]]:
+                        env.pop(k2)
+                    if res is not None:
+                        env[dest] = res
                 # calls taking &mut of a tracked local invalidate it
                 for a in t['args']:
                     p = op_place(a)
@@ -397,7 +419,8 @@ def decision_table(fn, var_key, var_ty, start_blk, classify, extra_consts=(), do
             continue
         env = dict(init_env or {})
         env[var_key] = a
-        out = frozenset(w.walk(start_blk, env, skip_first=skip_first, pin=(var_key, ) if pin else ()))
+        pins = tuple([var_key] if pin else []) + tuple((init_env or {}).keys() if pin else ())
+        out = frozenset(w.walk(start_blk, env, skip_first=skip_first, pin=pins))
         if rows and rows[-1][2] == out and rows[-1][1] + 1 == a:
             rows[-1] = (rows[-1][0], b, out)
         else:
